@@ -6,6 +6,7 @@
  *
  * Requests (one per line):
  *   ren <hexline> <order> <td> <lim>     all ren_* observables + dir_context/dir_reorder + the matcher trace
+ *   dir <hexline> <order> <td> <lim>     only dir_context / dir_match / dir_reorder + the matcher trace (long lines of C18)
  *   shape <hexline> <xshape>             uc_shape / ren_translate of every character of the line
  *   wsweep <lo> <hi>                     width classes of every code point lo..hi
  *   wclass <lo> <hi>                     the same function of every code point lo..hi, printed as maximal runs
@@ -22,6 +23,7 @@ int probe_rset_find(struct rset *re, char *s, int n, int *grps, int flg);
 #undef rset_find
 #include "probe_util.h"
 
+extern int re_verif_depthcut;		/* hook of regex.c (-DNEATVI_VERIF): how often re_rec() hit its depth limit */
 static int cap_found, cap_flg, cap_n, cap_subs[64];
 static int cap_ctxfound;
 
@@ -96,7 +98,7 @@ static void ilist(char *key, int *a, int n)
 		printf("%d,", a[i]);
 }
 
-static void do_ren(char *hex, int order, int td, int lim)
+static void do_ren(char *hex, int order, int td, int lim, int full)
 {
 	int len, n, i, p, total, dctx, tn;
 	char *s = pu_unhex(hex, &len, 8, 8);
@@ -109,8 +111,14 @@ static void do_ren(char *hex, int order, int td, int lim)
 	chrs = uc_chop(s, &n);
 	/* matcher oracle for the model */
 	cap_ctxfound = -2;
+	re_verif_depthcut = 0;
 	dctx = dir_context(s);
-	printf("n=%d ctxf=%d trace=", n, cap_ctxfound);
+	ord = malloc((n + 1) * sizeof(ord[0]));
+	for (i = 0; i < n; i++)
+		ord[i] = i;
+	dir_reorder(s, ord);			/* cut = depth cuts of the matcher during one dir_context + dir_reorder */
+	free(ord);
+	printf("n=%d cut=%d ctxf=%d trace=", n, re_verif_depthcut, cap_ctxfound);
 	dmlen = 0;
 	dmbuf[0] = '\0';
 	ntrace = 0;
@@ -129,6 +137,12 @@ static void do_ren(char *hex, int order, int td, int lim)
 	dir_reorder(s, ord);
 	ilist("ord", ord, n);
 	free(ord);
+	if (!full) {
+		printf("\n");
+		free(chrs);
+		free(s - 8);
+		return;
+	}
 	pos = ren_position(s);
 	total = pos[n];
 	ilist("pos", pos, n + 1);
@@ -302,7 +316,9 @@ int main(void)
 	while ((l = pu_getline())) {
 		int n = pu_words(l, w, 8);
 		if (n == 5 && !strcmp(w[0], "ren"))
-			do_ren(w[1], atoi(w[2]), atoi(w[3]), atoi(w[4]));
+			do_ren(w[1], atoi(w[2]), atoi(w[3]), atoi(w[4]), 1);
+		else if (n == 5 && !strcmp(w[0], "dir"))
+			do_ren(w[1], atoi(w[2]), atoi(w[3]), atoi(w[4]), 0);
 		else if (n == 3 && !strcmp(w[0], "shape"))
 			do_shape(w[1], atoi(w[2]));
 		else if (n == 3 && !strcmp(w[0], "wsweep"))
